@@ -429,7 +429,7 @@ int main(void)
 		unsigned k;
 
 		for (k = 0; k < N; k++) {
-			V_FILL_STR(vin_t[k], 2);
+			V_FILL_STR_AT(vin_t, k, 2);
 			vals[k] = vin_t[k];
 			want[k] = 0;
 			cls[k] = O->type == CFGT_INT ? txt_int(vin_t[k], &want[k]) : 1;
